@@ -18,3 +18,4 @@ OBLIGATIONS = OBLIGATIONS + [K.MAGICS]
 # one run per chromosome (D22): a re-appearing chromosome must be refused, else sections are out of chromosome order
 OBLIGATIONS = OBLIGATIONS + [K.IDMAP]
 OBLIGATIONS = OBLIGATIONS + [K.NODE_COUNTS, K.CHROM_TREE_COUNT]
+OBLIGATIONS = OBLIGATIONS + [K.CHROM_TREE_KEY_ORDER]
